@@ -96,7 +96,26 @@ def build_module(case):
             inv['freeform'].append(dict(ent, expected=list(expected) + second))
         else:
             inv['freeform'].append(ent)
+    if case.get('subclass'):
+        # a subclass that overrides documented methods without documenting them again (and has no docstring of its own):
+        # it holds no doctest, however the docstrings are looked up
+        meths = ['f{}'.format(i) for i, fn in enumerate(case['funcs']) if fn.get('in_class')]
+        if meths and k_openings(case) == 1:
+            L += ['class KChild(K):', '']
+            for m in meths[:2]:
+                L += ['    def {}(self=None):'.format(m), '        return 2', '']
+            L += ['']
     return L, inv
+
+
+def k_openings(case):
+    n, prev = 0, False
+    for fn in case['funcs']:
+        cur = bool(fn.get('in_class'))
+        if cur and not prev:
+            n += 1
+        prev = cur
+    return n
 
 
 def doctest_lines(fn):
@@ -147,17 +166,21 @@ def doctest_lines(fn):
         out_doc.append('')
     j = 0
     in_want = False
+    prompt_ind = 0
     for ln, lab in zip(doc, labels):
         out_doc.append(ln)
         if lab == 'src':
             expected.append(('src', exec_lines[j], ln.strip() == '...'))
             j += 1
             in_want = False
+            if ln.lstrip().startswith('>>>'):
+                prompt_ind = len(ln) - len(ln.lstrip())
         elif lab == 'want':
             if not in_want:
                 expected.append('# doctest want:')
                 in_want = True
-            expected.append('# ' + ln.strip())
+            # a want line keeps the blanks it has beyond the column of its prompt
+            expected.append('# ' + (ln[prompt_ind:] if not ln[:prompt_ind].strip() else ln.lstrip()).rstrip())
         else:
             in_want = False
     last_src = [ln for ln, lab in zip(doc, labels) if lab == 'src'][-1]
@@ -242,14 +265,16 @@ def check_case(case, ctx):
             f.write('\n'.join(lines) + '\n')
         try:
             with sandbox.quiet() as (out, err, wl):
-                xdoctest.doctest_module(path, command='dump', argv=[], style=style, verbose=0)
+                # (the class K is opened once at most when the live module is read: a class statement met twice rebinds the name)
+                analysis = case.get('analysis', 'auto') if k_openings(case) <= 1 else 'auto'
+                xdoctest.doctest_module(path, command='dump', argv=[], style=style, verbose=0, analysis=analysis)
             text = out.getvalue()
             src = '\n'.join('{:3d} {}'.format(i + 1, ln) for i, ln in enumerate(lines))
             where = 'style={}\n--- dump\n{}\n--- module\n{}'.format(style, text[:5000], src[:6000])
             exp = [x for x in expected_inventory(inv, case, style) if not x['disabled']]
             if ctx is not None:
                 ctx.count()
-                ctx.tag('style:' + style)
+                ctx.tag('style:' + style, 'analysis:' + analysis)
                 for x in exp:
                     if x['nontrivial']:
                         ctx.nontriv('\n'.join(map(str, x['expected'])), {'expected_body': [e if isinstance(e, str) else e[1] for e in x['expected']][:40]})
@@ -340,7 +365,8 @@ def case_strategy(D, max_funcs, max_groups):
             fn['nontrivial'] = bool(big and any(g['want'] for g in p['groups']))
             fn['kinds'] = [g['kind'] for g in p['groups']]
         funcs.append(fn)
-    return {'funcs': funcs, 'style': D.choice(STYLES), 'cli': D.chance(1, 25)}
+    return {'funcs': funcs, 'style': D.choice(STYLES), 'cli': D.chance(1, 25), 'analysis': D.choice(['auto', 'auto', 'dynamic']),
+            'subclass': D.chance(1, 2)}
 
 
 def _check(case, ctx):
